@@ -2,11 +2,17 @@ import Lean.Data.Json
 import SpoxModel.Model.MLInfer
 import SpoxModel.Model.RtShape
 import SpoxModel.Model.ScanRun
+import SpoxModel.Model.IfInfer
+import SpoxModel.Model.ScanState
 /-! Line-protocol handler for property C06 (model side of the correspondence).
 
   {"k":"infer","op":O,"a":_,"b":_,"c":_,"in":[type…]}            → {"ok":[type|null…]} | {"err":E}
   {"k":"loop","A":[…],"R":[…],"S":[…],"pinned":bool}             → same
   {"k":"rt","op":O,"a":_,"b":_,"c":_,"kk":k,"vals":[value…]}     → {"rt":[value…]|null}
+  {"k":"if","T":[type…],"E":[type…]}                             → {"ok":[type…]} | {"err":E}   (round 10)
+  {"k":"scanstate","S0":type,"R":type}                            → {"ty":type} | {"err":E}     (round 10)
+  {"k":"scanguard","body":kind,"state":value,"n":len}            → {"run":{final,outs}|null}
+  {"k":"ifrun","c":bool,"vt":[value…],"ve":[value…]}             → {"run":[value…]}
   {"k":"conf","val":value,"ty":type}                              → {"conf":bool}
   {"k":"strip","ty":type,"all":bool}                              → {"ty":type}
 -/
@@ -198,6 +204,37 @@ def handle (req : Json) : Json :=
       pure (Json.mkObj [("outcome", match nonTensorOutcome op with
         | some .typeErr => "TypeError" | some .inferenceErr => "InferenceError"
         | some .passThrough => "passThrough" | none => "?")])
+    | "scanstate" => do
+      let s0 ← tyOfJson (← req.getObjVal? "S0")
+      let r ← tyOfJson (← req.getObjVal? "R")
+      match s0, r with
+      | some s0, some r => pure (match scanStateTy s0 r with
+          | some u => Json.mkObj [("ty", tyToJson (some u))]
+          | none => Json.mkObj [("err", "InferenceError")])
+      | _, _ => pure (Json.mkObj [("err", "TypeError")])
+    | "scanguard" => do
+      -- one state, one scan input `f32[n,2]`; the body maps the state by `kind` and returns the slice as row
+      let kind ← req.getObjValAs? String "body"
+      let st ← valOfJson (← req.getObjVal? "state")
+      let n ← req.getObjValAs? Nat "n"
+      let f : RtVal → RtVal := match kind with
+        | "double" => fun v => ⟨v.e, match v.s with | d :: r => (2 * d) :: r | [] => []⟩
+        | "head" => fun v => ⟨v.e, match v.s with | d :: r => (min 1 d) :: r | [] => []⟩
+        | "flatten" => fun v => ⟨v.e, [numel v.s]⟩
+        | _ => fun v => v
+      let body : ScanBody := fun _ sts sl => some (sts.map f, sl)
+      match scanRun {} (guardBody body) 1 [st] [⟨.f32, [n, 2]⟩] with
+      | none => pure (Json.mkObj [("run", .null)])
+      | some (fin, outs) => pure (Json.mkObj [("run", Json.mkObj [("final", Json.arr (fin.map valToJson).toArray),
+          ("outs", Json.arr (outs.map valToJson).toArray)])])
+    | "if" => do
+      let T ← tys req "T"; let E ← tys req "E"
+      pure (resToJson (inferIf T E))
+    | "ifrun" => do
+      let c ← req.getObjValAs? Bool "c"
+      let vt ← (← req.getObjValAs? (Array Json) "vt").toList.mapM valOfJson
+      let ve ← (← req.getObjValAs? (Array Json) "ve").toList.mapM valOfJson
+      pure (Json.mkObj [("run", Json.arr ((ifRun c vt ve).map valToJson).toArray)])
     | "loop" => do
       let A ← tys req "A"; let R ← tys req "R"; let S ← tys req "S"
       let pinned := (req.getObjValAs? Bool "pinned").toOption.getD false
